@@ -141,6 +141,7 @@ fn check_text(c: &TextCase, obs: &mut Obs) -> Verdict {
 fn strat(tier: Tier) -> BoxedStrategy<Case> {
     prop_oneof![
         16 => seq_case_k(tier.pick(100, 300), true, 3, true).prop_map(Case::Seq),
+        1 => prop_oneof![9 => seq_case(12, true, 3), 1 => big_seq_case(tier)].prop_map(Case::Seq),
         4 => text_case_mix(tier.pick(120, 160)).prop_map(Case::Text),
         1 => big_line_case(tier.pick(130, 300)).prop_map(Case::Text),
         1 => distinct_line_case(tier.pick(300, 600)).prop_map(Case::Text),
